@@ -245,20 +245,20 @@ def mutate(target, how, ctx_leaf):
             if how == 'delete_front':
                 if not keys:
                     return False
-                dict.__delitem__(target, keys[0])
+                del target[keys[0]]
             elif how == 'delete_back':
                 if not keys:
                     return False
-                dict.__delitem__(target, keys[-1])
+                del target[keys[-1]]
             elif how == 'clear':
-                dict.clear(target)
+                target.clear()
             elif how == 'append':
                 for j in range(40):  # force a resize of the key table
-                    dict.__setitem__(target, 'zz%d' % j, ctx_leaf)
+                    target['zz%d' % j] = ctx_leaf
             elif how == 'replace':
                 if not keys:
                     return False
-                dict.__setitem__(target, keys[0], [ctx_leaf, {'q': ctx_leaf}])
+                target[keys[0]] = [ctx_leaf, {'q': ctx_leaf}]
             return True
         if isinstance(target, (list, deque)):
             if how == 'delete_front':
